@@ -160,6 +160,10 @@ def cases(block):
                 {"cls": "DiffuseDroplet", "centre": [3.9 + ph, 3.4], "R": 2.1, "width": 0.8},
                 {"cls": "PerturbedDroplet2D", "centre": [6.8 + ph, 0.6], "R": 1.7, "width": 0.5, "amps": [0.2, -0.1]},
                 {"cls": "DiffuseDroplet", "centre": [2.9 + ph, 2.7], "R": 1.2, "width": 0.0},
+                # centres outside the box: whole periods away / just beyond the boundary (periodic images re-enter the box)
+                {"cls": "DiffuseDroplet", "centre": [5.1 + ph - 8.0, 5.2 + 14.0], "R": 1.3, "width": 0.0},
+                {"cls": "SphericalDroplet", "centre": [-2.4 + ph, 9.3], "R": 1.4},
+                {"cls": "DiffuseDroplet", "centre": [6.1 + ph + 16.0, 1.2], "R": 1.5, "width": 0.6},
             ]
             for n in (0, 1, 2, 3):
                 for sub in itertools.combinations(range(len(pool)), n):
